@@ -224,7 +224,7 @@ func main() {
 	for _, o := range old {
 		keep := false
 		for _, gf := range files {
-			if filepath.Base(o) == gf.Name+".lean" || filepath.Base(o) == "Facts.lean" {
+			if filepath.Base(o) == gf.Name+".lean" || filepath.Base(o) == "Facts.lean" || filepath.Base(o) == "Api.lean" {
 				keep = true
 			}
 		}
@@ -301,6 +301,7 @@ func main() {
 			_ = os.WriteFile(target, []byte(b.String()), 0o644)
 		}
 	}
+	writeApiFacts(root, gen, status, facts)
 	facts["translated"] = status
 	for name, f := range factTables {
 		v, err := f(root)
